@@ -20,6 +20,10 @@ def sh(cmd, cwd=None, timeout=3000, env=None):
     return p.returncode, p.stdout.decode("utf-8", "replace")
 
 def confirm(prefix, mid):
+    try:
+        os.close(os.open("/tmp/mut/confirm-%s.lock" % mid, os.O_CREAT | os.O_EXCL))
+    except FileExistsError:
+        print("another confirmation of %s is running or done" % mid); return 3
     prop = mid.split("-")[0]
     wt = "/tmp/mut/confirm-" + mid
     tgt = wt + "-target"
@@ -56,7 +60,20 @@ def confirm(prefix, mid):
         rc, out = sh("cargo test -p yrs --lib --offline -- --skip test_medium_data_set", cwd=wt, env=env, timeout=3000)
         m = re.search(r"test result: .*", out); res["unit_suite"] = m.group(0) if m else out[-300:]
         if rc != 0:
-            res["reason"] = "existing tests fail with the change"; return finish(res, prefix, mid, store=False)
+            failed = sorted(set(re.findall(r"^test (\S+) \.\.\. FAILED", out, re.M)))
+            res["unit_suite_failed"] = failed
+            # timing-dependent tests fail under load on the unchanged tree as well: a test counts as failing only if it
+            # fails again in three isolated re-runs
+            still = []
+            for t in failed:
+                fails = 0
+                for _ in range(3):
+                    rc2, _o = sh("cargo test -p yrs --lib --offline -- --exact %s" % t, cwd=wt, env=env, timeout=1200)
+                    fails += rc2 != 0
+                if fails: still.append("%s (%d/3)" % (t, fails))
+            res["unit_suite_failed_again_in_isolation"] = still
+            if still or not failed:
+                res["reason"] = "existing tests fail with the change"; return finish(res, prefix, mid, store=False)
         res["confirmed"] = True
         return finish(res, prefix, mid, store=True)
     finally:
